@@ -4,6 +4,7 @@ import (
 	"fmt"
 	"go/token"
 	"go/types"
+	"regexp"
 	"sort"
 	"strings"
 
@@ -475,10 +476,16 @@ func checkC01(p *Program, r *Report) {
 	// raw public key hex arm: lengths are twice the key lengths; String and ScriptAddress share the serialiser
 	c01pubkey(p, r, da)
 	c01stages(p, r, da)
+	rejectionVocabulary(p, r, "C01.accepts", da, c01AcceptsAllow, "the stage results: CashAddr payload length and type, hex / Base58Check decoding errors, payload length and the registry's kind of the version byte")
+	r.Floor("C01.accepts", 10)
 	r.Floor("C01.kinds", 20)
 
 	c01membership(p, r, addrTypes)
 	c01hashing(p, r, addrTypes)
+	// lazily cached renderings must follow what they were computed from
+	for _, nt := range addrTypes {
+		memoCoherence(p, r, "C01.memo", "", nt.Obj().Name(), nil)
+	}
 }
 
 func keysOf(m map[int64]bool) []int64 {
@@ -848,5 +855,43 @@ func c01stages(p *Program, r *Report, da *ssa.Function) {
 	if n == 0 {
 		r.Unresolved("C01.stages", "returns of the CashAddr stage")
 	}
+	// the public-key stage is entered for every string of a key length the CashAddr stage passed on: nothing but the
+	// length of the string (and the CashAddr stage's own outcome) stands between the two
+	for _, b := range da.Blocks {
+		for _, in := range b.Instrs {
+			c, ok := in.(*ssa.Call)
+			if !ok || !staticCalleeIs(&c.Call, "encoding/hex.DecodeString") {
+				continue
+			}
+			var foreign []string
+			for _, cd := range MustCondsAtBlock(da, b) {
+				for _, l := range condLeaves(cd.V) {
+					okL := false
+					for _, a := range []string{`len\(param addr\)`, `len\(field CashAddressPrefix\)`, `len\(field SlpAddressPrefix\)`, `call .*bchutil\.checkDecodeCashAddress#[0-3]`, `global ErrChecksumMismatch`,
+						`call strings\.EqualFold`, `field SlpAddressPrefix`, `field CashAddressPrefix`} {
+						if regexp.MustCompile("^(?:" + a + ")$").MatchString(l) {
+							okL = true
+						}
+					}
+					if !okL {
+						foreign = append(foreign, l)
+					}
+				}
+			}
+			sort.Strings(foreign)
+			foreign = dedup(foreign)
+			r.Add("C01.stages", FnName(da), "the public-key stage is gated by the string's length alone", c.Pos(), len(foreign) == 0,
+				"further conditions on the way to the hex decoder read {"+strings.Join(foreign, ", ")+"}: some rendering of a public key may be passed on to Base58Check instead")
+		}
+	}
 	r.Floor("C01.stages", 8)
+}
+
+// c01AcceptsAllow: what DecodeAddress may base a refusal on.
+var c01AcceptsAllow = []string{
+	`len\(param addr\)`, `len\(field CashAddressPrefix\)`, `len\(field SlpAddressPrefix\)`, // entry length guard
+	`call .*bchutil\.checkDecodeCashAddress#[0-3]`, `len\(call .*bchutil\.checkDecodeCashAddress#0\)`, // CashAddr stage results
+	`call encoding/hex\.DecodeString#1`,                                                                                           // public-key stage
+	`call .*base58\.CheckDecode#[0-2]`, `len\(call .*base58\.CheckDecode#0\)`, `global ErrChecksum`, `global ErrChecksumMismatch`, // Base58Check stage
+	`call .*chaincfg\.IsPubKeyHashAddrID`, `call .*chaincfg\.IsScriptHashAddrID`, // the registry's kind of the version byte
 }
